@@ -171,6 +171,16 @@ class SymTuple:
         return f"SymTuple<{self.fixed}+{self.n}>"
 
 
+class SymOpt:
+    """an optional int read from a list in spec mode: None is encoded as -1"""
+
+    def __init__(self, t):
+        self.t = t
+
+    def __repr__(self):
+        return f"SymOpt<{self.t}>"
+
+
 class SymSet:
     """a set of integers of unknown size: characteristic array Int -> Bool"""
 
